@@ -3,6 +3,7 @@
 -/
 import Rbgp.Wire.Sess
 import Rbgp.Wire.ErrClass
+import Rbgp.Wire.StreamProofs
 set_option linter.unusedSimpArgs false
 set_option linter.unusedVariables false
 namespace Rbgp.Wire.Sess
@@ -126,5 +127,62 @@ theorem checkSess_run_ok (dec : HypDec) (hd : dec.NP) (hde : dec.E3) (p : Profil
     simp only [hc, Bool.false_eq_true, if_false]
     rw [if_neg (by omega)]
     simp [hn, he]
+
+/-! ## RTR -/
+
+def RClean (r : RRec) : Prop := r ≠ .panic ∧ r ≠ .stall
+
+theorem rtrDrain_clean (buf : Bytes) : ∀ r ∈ (rtrDrain buf).1, RClean r := by
+  fun_induction rtrDrain buf with
+  | case1 buf hm => intro r hr; simp only [List.mem_singleton] at hr; subst hr; exact ⟨by simp, by simp⟩
+  | case2 buf he => intro r hr; simp only [List.mem_singleton] at hr; subst hr; exact ⟨by simp, by simp⟩
+  | case3 buf hp => exact absurd hp (rtrDecode_spec buf).1
+  | case4 buf m n hm hn r ih =>
+    intro x hx
+    simp only [List.mem_cons] at hx
+    rcases hx with rfl | hx
+    · exact ⟨by simp, by simp⟩
+    · exact ih x hx
+  | case5 buf m n hm hn =>
+    obtain ⟨h8, hle, _⟩ := (rtrDecode_spec buf).2.1 m n hm
+    exact absurd ⟨by omega, hle⟩ hn
+
+theorem rtrStream_clean : ∀ (chunks : List Bytes) (buf : Bytes), ∀ r ∈ rtrStream buf chunks, RClean r := by
+  intro chunks
+  induction chunks with
+  | nil => intro buf r hr; simp [rtrStream] at hr
+  | cons ch rest ih =>
+    intro buf r hr
+    unfold rtrStream at hr
+    have hd := rtrDrain_clean (buf ++ ch)
+    cases hdr : rtrDrain (buf ++ ch) with
+    | mk rs ob =>
+      rw [hdr] at hr hd
+      cases ob with
+      | some b =>
+        simp only [List.mem_append] at hr
+        rcases hr with h | h
+        · exact hd r h
+        · exact ih b r h
+      | none => exact hd r hr
+
+/-- RTR session master theorem: the checker accepts every run of the RTR session model -/
+theorem checkRtrSess_run_ok (chunks : List Bytes) (eof : Bool) :
+    checkRtrSess eof (runRtrSess chunks eof) = .ok := by
+  unfold runRtrSess
+  simp only
+  have hclean := rtrStream_clean chunks []
+  have hno : (rtrStream [] chunks).any (fun r => r == .panic || r == .stall) = false := by
+    rw [List.any_eq_false]
+    intro r hr
+    obtain ⟨h1, h2⟩ := hclean r hr
+    simp [h1, h2]
+  rw [hno]
+  simp only [Bool.false_eq_true, if_false]
+  cases eof with
+  | true => simp [checkRtrSess]
+  | false =>
+    simp only [Bool.false_or]
+    split <;> simp [checkRtrSess]
 
 end Rbgp.Wire.Sess
